@@ -69,6 +69,17 @@ def enc_specs():
                     "cipher_final": ("outinput", "r_cipher_final", I32, {2: ("n_fin", I32)}, []),
                     "cipher_cleanup": ("outinput", "r_cipher_cleanup", I32, {}, [])},
              oracles=["mac_size", "cipher_block_size"], oracle_arity={"mac_size": 1, "cipher_block_size": 1}),
+        dict(name="enc_armor", named_free=True, malloc_cursor="armor",
+             inputs=[("c.outer_len", "outer_len"), ("c.mac_len", "mac_len"), ("c.inner_len", "inner_len"), ("c.outer_mem_len", "outer_mem_len"),
+                     ("c.inner_mem_len", "inner_mem_len"), ("c.outer", "outer_ptr"), ("c.mac", "mac_ptr"), ("c.inner", "inner_ptr"),
+                     ("c.outer_mem", "outer_mem_ptr"), ("c.inner_mem", "inner_mem_ptr"), ("malloc_ret", "malloc_ret")],
+             calls={"m_msg_set_err": ("event", -1, [1]), "strdup": ("ignore", 1), "log_msg": ("ignore", 0),
+                    "base64_encode_length": ("oracle", [0]),
+                    "base64_init": ("outinput", "r_b64_init", I32, {}, []),
+                    "base64_encode_update": ("outinput", "r_b64_update", I32, {2: ("n_b64", I32)}, [1, 3, 4]),
+                    "base64_encode_final": ("outinput", "r_b64_final", I32, {2: ("n_b64_final", I32)}, [1]),
+                    "base64_cleanup": ("outinput", "r_b64_cleanup", I32, {}, [])},
+             oracles=["base64_encode_length"], oracle_arity={"base64_encode_length": 1}),
         dict(name="enc_compress", cursors={"c.outer_zip_ref": "zipref"}, named_free=True,
              inputs=[M("zip"), ("c.inner_len", "inner_len"), ("c.inner_mem_len", "inner_mem_len"), ("c.inner", "inner_ptr"),
                      ("c.inner_mem", "inner_mem_ptr"), ("malloc_ret", "malloc_ret")],
